@@ -6,7 +6,7 @@ import math
 
 from vf import monitors
 
-SLACK = 5.0
+SLACK = 3.0
 
 
 def gen_dynamics(rng):
@@ -19,7 +19,7 @@ def gen_dynamics(rng):
     idx = 0
     for _ in range(n_blocks):
         kind = rng.choice(['stable', 'stable', 'unit', 'unstable', 'negative', 'neg_unstable', 'complex_stable',
-                           'complex_unit', 'complex_unstable', 'slow'])
+                           'complex_unit', 'complex_unstable', 'slow', 'flip_zero'])
         if calm:
             kind = rng.choice(['stable', 'stable', 'negative', 'complex_stable'])
         elif rng.random() < 0.12:
@@ -43,7 +43,10 @@ def gen_dynamics(rng):
         else:
             lam = {'stable': rng.choice([0.1, 0.5, 0.9]), 'unit': 1.0, 'unstable': rng.choice([1.01, 1.2, 2.0]),
                    'negative': rng.choice([-0.5, -0.9]), 'neg_unstable': rng.choice([-1.0, -1.5]),
-                   'slow': rng.choice([0.99, 0.999]), 'explosive': rng.choice([-40.0, 30.0, 1000.0, 1e6])}[kind]
+                   'slow': rng.choice([0.99, 0.999]), 'explosive': rng.choice([-40.0, 30.0, 1000.0, 1e6]),
+                   'flip_zero': -1.0}[kind]
+            if kind == 'flip_zero':
+                target = 0.0      # undamped period-2 oscillation symmetric about zero
             x = 'x%d' % idx
             idx += 1
             c = target * (1 - lam) if lam != 1.0 else rng.choice([0.0, 0.0, -1.0, 0.01])
@@ -52,9 +55,9 @@ def gen_dynamics(rng):
     ics = {}
     for nm in names:
         ics[nm] = rng.choice([0.0, 1.0, -5.0, -205.0, 50.0, 1e-5, -1e-5, 3.0])
-    if 'explosive' in kind_tags:
+    if 'explosive' in kind_tags or 'flip_zero' in kind_tags:
         for nm in names:
-            if ics[nm] == 0.0:
+            if abs(ics[nm]) < 1e-3:
                 ics[nm] = 2.0
     with_exo = rng.random() < 0.5
     exo = None
@@ -96,7 +99,7 @@ class C15(object):
             'sign-changing; optional exogenous input; derived sums incl. a negated one), search horizon 3-300, tolerance '
             '1e-2..1e-8; the real CalculateInitialSteadyState is run after SetInitialConditions; on success one further '
             'real SolveStep(1) on a deep copy with exogenous frozen at k=0 must move no non-excluded variable by more '
-            'than %g*tol*max(1,|v|) (unless both values are below 1e-4); failure must be NoEquilibriumError/ValueError; '
+            'than %g*tol*max(1,|v|) (values inside the absolute band 1e-4 the search treats as zero are exempt); failure must be NoEquilibriumError/ValueError; '
             'parser lists, exogenous series and horizon are compared with deep snapshots; distinct = hash of case; '
             'non-trivial = the search accepted, or rejected a genuinely unsteady system' % SLACK)
     assumptions = ['slack %g: a mode of modulus <= 2 may grow one step past the acceptance test' % SLACK,
@@ -185,15 +188,27 @@ class C15(object):
                 a, b = v0[n], series[1]
                 if a < -1e-4:
                     neg = True
-                if abs(a) < 1e-4 and abs(b) < 1e-4:
-                    continue
+                if abs(a) < 1e-4 and abs(b) < SLACK * 1e-4:
+                    continue     # near zero on the absolute scale the search itself uses (band 1e-4, same slack)
                 lim = SLACK * case['tol'] * max(1.0, abs(a))
                 ratio = abs(b - a) / lim
                 worst = max(worst, ratio)
                 if not abs(b - a) <= lim:
+                    # mechanism: did the two sampled points of the search really (almost) coincide while the system
+                    # carries a non-decaying oscillation?  (the two-point acceptance test sampled a turning point)
+                    mech = 'accepted_steady_state_moves'
+                    try:
+                        ss = s.TimeSeriesInitialSteadyState[n]
+                        legit = abs(ss[-1] - ss[-2]) <= case['tol'] * max(1.0, abs(ss[-1]))
+                        osc = set(case['dyn']['kinds']) & {'complex_unit', 'complex_unstable', 'neg_unstable', 'flip_zero'}
+                        if legit and osc:
+                            mech = 'D15_oscillation_sampled_at_turning_point'
+                    except Exception:
+                        pass
                     rec.violate('accepted_steady_state_moves', {'var': n, 'k0': a, 'k1': b, 'tol': case['tol'],
+                                                                'search_last_two': list(ss[-2:]) if 'ss' in dir() else None,
                                                                 'moved_by_tolerances': abs(b - a) / (case['tol'] * max(1.0, abs(a))),
-                                                                'T': case['T'], 'text': case['text']})
+                                                                'T': case['T'], 'text': case['text']}, mechanism=mech)
                     break
             if neg:
                 rec.count('accepted.negative_valued')
